@@ -37,3 +37,39 @@ func dumpFunc(e *Engine, name string) {
 	}
 	_ = os.Stdout
 }
+
+// dumpPath prints one call-graph path from function a to function b.
+func dumpPath(e *Engine, a, b string, stopName string) {
+	fa, fb := e.Func(a), e.Func(b)
+	if fa == nil || fb == nil {
+		fmt.Println("function not found", fa == nil, fb == nil)
+		return
+	}
+	stop := e.Func(stopName)
+	prev := map[*ssa.Function]*ssa.Function{fa: nil}
+	q := []*ssa.Function{fa}
+	for len(q) > 0 {
+		f := q[0]
+		q = q[1:]
+		if f == fb {
+			var p []string
+			for x := f; x != nil; x = prev[x] {
+				p = append([]string{fname(x)}, p...)
+			}
+			fmt.Println(strings.Join(p, "\n  -> "))
+			return
+		}
+		if f == stop {
+			continue
+		}
+		if n := e.CG.Nodes[f]; n != nil {
+			for _, ed := range n.Out {
+				if _, ok := prev[ed.Callee.Func]; !ok {
+					prev[ed.Callee.Func] = f
+					q = append(q, ed.Callee.Func)
+				}
+			}
+		}
+	}
+	fmt.Println("no path")
+}
